@@ -5,13 +5,49 @@ import sys
 import qgen
 import vlib
 from semdiff import SemDiff
-from sqlutil import Rng
+from sqlutil import Rng, bag
 
 # aggregate DISTINCT/FILTER modifiers belong to C07, subquery predicates to C09
 FEATS = {"join", "outer", "semi", "agg", "distinct", "union", "limit", "case", "inlist"}
 
 
+# Minimized past failures of SELECT semantics (all repaired by fix: commits): they run first, in every tier, under 1 and 4 threads.
+# (setup, query, expected rows as the harness prints them; None = ordered comparison not needed)
+T_U = ["CREATE TEMP TABLE t (a BIGINT)", "INSERT INTO t VALUES (1), (2), (NULL)", "CREATE TEMP TABLE u (b BIGINT)", "INSERT INTO u VALUES (1), (NULL)"]
+SIX = ["CREATE TEMP TABLE s6 (a BIGINT)", "INSERT INTO s6 VALUES (1), (2), (3), (4), (5), (6)"]
+CORPUS = [
+    ("F37 exists, NULL correlation value", T_U, "SELECT a FROM t WHERE EXISTS (SELECT 1 FROM u WHERE t.a IS NULL OR u.b = t.a)", [["1"], [None]]),
+    ("F37 not exists, predicate true for the NULL row", ["CREATE TEMP TABLE r1 (k0 BIGINT, k1 BOOLEAN, k2 BOOLEAN)", "INSERT INTO r1 VALUES (-1, NULL, true)", "CREATE TEMP TABLE r2 (k0 BIGINT, k1 BOOLEAN)", "INSERT INTO r2 VALUES (-1, false)"],
+     "SELECT k0 FROM r1 WHERE NOT EXISTS (SELECT 1 FROM r2 WHERE r1.k0 = r2.k0 AND (r1.k2 OR r1.k1))", []),
+    ("F66 constant IN subquery", T_U, "SELECT a FROM t WHERE 1 IN (SELECT b FROM u)", [["1"], ["2"], [None]]),
+    ("F66 two constant IN subqueries", T_U, "SELECT a FROM t WHERE 1 IN (SELECT b FROM u) AND 7 IN (SELECT b FROM u)", []),
+    ("F38 exists over a left join", T_U, "SELECT a FROM t WHERE EXISTS (SELECT 1 FROM t t2 LEFT JOIN u ON t2.a = u.b WHERE t2.a = t.a)", [["1"], ["2"]]),
+    ("F64 exists with a correlated scalar aggregate", ["CREATE TEMP TABLE e1 (k0 BIGINT, k1 BIGINT)", "INSERT INTO e1 VALUES (NULL,12345),(-1,NULL),(-22,-42),(-1000,-31),(4,NULL)"],
+     "SELECT count(*) FROM e1 q1 WHERE EXISTS (SELECT 1 FROM e1 q4 WHERE q4.k0 <> (SELECT sum(q7.k1) FROM e1 q7 WHERE q7.k0 = q4.k0))", [["5"]]),
+    ("F34 three-valued AND under NOT BETWEEN", SIX, "SELECT a FROM s6 WHERE a NOT BETWEEN 5 AND NULL", [["1"], ["2"], ["3"], ["4"]]),
+    ("F16 CASE under a selection", SIX, "SELECT a FROM s6 WHERE a > 2 AND (CASE WHEN a > 3 THEN true ELSE false END)", [["4"], ["5"], ["6"]]),
+    ("F67 typed NULL from constant folding in a union", [], "SELECT list_extract([1, 2], 4) AS r UNION ALL SELECT 3", [["3"], [None]]),
+]
+
+
+def corpus(ck, runner):
+    comp = "regression_corpus"
+    for what, setup, sql, exp in CORPUS:
+        for threads in (1, 4):
+            stmts = [f"SET partitions TO {threads}"] + setup + [sql]
+            res = runner.run(stmts, threads=threads, timeout=60)
+            ck.count(comp, 1)
+            ck.nontrivial((comp, sql, threads))
+            if isinstance(res, dict):
+                ck.violation("corpus/crash-or-hang", f"{what}: the query hangs or kills the process with {threads} partitions: {sql}", {"kind": "crash", "stmts": stmts, "result": res})
+                continue
+            last = res[-1]
+            if "rows" not in last or bag(last["rows"]) != bag(exp):
+                ck.violation("corpus/wrong-rows", f"{what}: {sql} returns {str(last.get('rows', last))[:200]}, SQL semantics prescribe {exp}", {"kind": "impl-vs-oracle", "stmts": stmts, "engine": last.get("rows", last), "expected": exp})
+
+
 def run(ck, tier, runner):
+    corpus(ck, runner)
     rng = Rng(ck.seed * 1009 + 1)
     sd = SemDiff(ck, runner, "sem_default")
     ndb = 100 if tier == "quick" else 3000
